@@ -30,7 +30,7 @@ pub fn decode_params(u: &mut Unstructured) -> Params {
         log2_inv: u.int_in_range(0usize..=16).unwrap_or(0),
         max_sub: u.int_in_range(0usize..=6).unwrap_or(0),
         span: [8192usize, 1, 64, 1024, 1 << 20, 2, 512, 65536][u.int_in_range(0usize..=7).unwrap_or(0)],
-        blocks: [8usize, 1, 2, 64, 3, 16][u.int_in_range(0usize..=5).unwrap_or(0)],
+        blocks: [8usize, 1, 2, 64, 3, 16, 0][u.int_in_range(0usize..=6).unwrap_or(0)],
         seed: u.arbitrary().unwrap_or(0),
         wild: false,
     }
